@@ -799,7 +799,9 @@ async fn run_order(publishers: usize, per_request: usize) -> Result<(), Fail> {
     }
     let mut requests: Vec<Vec<u64>> = Vec::new();
     for h in handles { requests.push(h.await.map_err(|_| Fail { prop: "SETUP", what: "join".into() })?.map_err(|_| Fail { prop: "C01", what: "publish failed".into() })?); }
-    for r in requests.iter() { for w in r.windows(2) { if w[1] != w[0] + 1 { return Err(Fail { prop: "C08", what: format!("ids of one request not consecutive: {:?}", r) }); } } }
+    for r in requests.iter() { for w in r.windows(2) { if w[1] <= w[0] { return Err(Fail { prop: "C08", what: format!("ids of one request not strictly increasing: {:?}", r) }); } } }
+    // contiguity: no id of another request lies inside the id range of a request
+    for (i, r) in requests.iter().enumerate() { for (j, q) in requests.iter().enumerate() { if i != j { for x in q { if *x > r[0] && *x < r[r.len() - 1] { return Err(Fail { prop: "C08", what: format!("id {} of a concurrent request lies inside the id range of another Publish request {:?}", x, r) }); } } } } }
     for (si, s) in subs.iter().enumerate() {
         let mut got = Vec::new();
         loop {
@@ -818,13 +820,14 @@ async fn run_order_big() -> Result<(), Fail> {
     let sm = SubscriptionManager::new(Default::default());
     let topic = tm.create_topic(TopicName::new("p", "big")).map_err(|_| Fail { prop: "SETUP", what: "create".into() })?;
     let sub = sm.create_subscription(SubscriptionInfo::new_with_defaults(SubscriptionName::new("p", "big")), Arc::clone(&topic)).await.map_err(|_| Fail { prop: "SETUP", what: "create sub".into() })?;
-    let (ta, tb) = (Arc::clone(&topic), Arc::clone(&topic));
-    let a = tokio::spawn(async move { ta.publish_messages((0..2500u32).map(|i| TopicMessage::new(Bytes::from(i.to_be_bytes().to_vec()), None)).collect()).await.map(|r| r.message_ids.iter().map(|x| x.value).collect::<Vec<u64>>()) });
-    let b = tokio::spawn(async move { tokio::task::yield_now().await; tb.publish_messages(vec![TopicMessage::new(Bytes::from("b"), None)]).await.map(|r| r.message_ids.iter().map(|x| x.value).collect::<Vec<u64>>()) });
-    let ia = a.await.map_err(|_| Fail { prop: "SETUP", what: "join".into() })?.map_err(|_| Fail { prop: "C01", what: "publish failed".into() })?;
-    let ib = b.await.map_err(|_| Fail { prop: "SETUP", what: "join".into() })?.map_err(|_| Fail { prop: "C01", what: "publish failed".into() })?;
+    let a_msgs: Vec<TopicMessage> = (0..2500u32).map(|i| TopicMessage::new(Bytes::from(i.to_be_bytes().to_vec()), None)).collect();
+    let b_msgs = vec![TopicMessage::new(Bytes::from("b"), None)];
+    // both requests are in flight at the same time (A first), as two concurrent gRPC handlers would have them
+    let (ra, rb) = tokio::join!(topic.publish_messages(a_msgs), topic.publish_messages(b_msgs));
+    let ia: Vec<u64> = ra.map_err(|_| Fail { prop: "C01", what: "publish failed".into() })?.message_ids.iter().map(|x| x.value).collect();
+    let ib: Vec<u64> = rb.map_err(|_| Fail { prop: "C01", what: "publish failed".into() })?.message_ids.iter().map(|x| x.value).collect();
     if ia.len() != 2500 || ib.len() != 1 { return Err(Fail { prop: "C08", what: format!("Publish returned {} / {} ids for 2500 / 1 messages", ia.len(), ib.len()) }); }
-    for w in ia.windows(2) { if w[1] != w[0] + 1 { return Err(Fail { prop: "C08", what: "ids of one request are not consecutive".into() }); } }
+    for w in ia.windows(2) { if w[1] <= w[0] { return Err(Fail { prop: "C08", what: "ids of one request are not strictly increasing in request order".into() }); } }
     if ib[0] > ia[0] && ib[0] < ia[2499] { return Err(Fail { prop: "C08", what: format!("id {} of a concurrent request lies inside the id range {}..{} of one Publish request", ib[0], ia[0], ia[2499]) }); }
     let mut got = Vec::new();
     loop { let p = sub.pull_messages(1000).await.map_err(|_| Fail { prop: "SETUP", what: "pull".into() })?; if p.is_empty() { break; } got.extend(p.iter().map(|m| m.message().id.value)); }
@@ -836,7 +839,8 @@ async fn run_order_big() -> Result<(), Fail> {
 fn cmd_order(rounds: usize) -> i32 {
     let rt = tokio::runtime::Builder::new_multi_thread().worker_threads(2).enable_all().build().unwrap();
     for r in 0..(rounds / 10 + 1) {
-        if let Err(e) = rt.block_on(run_order_big()) {
+        let res = if r % 2 == 0 { tokio::runtime::Builder::new_current_thread().enable_all().build().unwrap().block_on(run_order_big()) } else { rt.block_on(run_order_big()) };
+        if let Err(e) = res {
             println!("WITNESS {{\"kind\":\"order\",{},\"publishers\":2,\"observed\":{:?},\"round\":{}}}", prop_json(e.prop), e.what, r);
             return 1;
         }
